@@ -1,4 +1,5 @@
 import Vet.Props.Resolve
+import Vet.Props.C02Report
 #print axioms Vet.C02_no_false_failure
 #print axioms Vet.C02_failures_exact
 #print axioms Vet.C02_failures_sorted
@@ -6,3 +7,7 @@ import Vet.Props.Resolve
 #print axioms Vet.search_complete
 #print axioms Vet.search_fuel_enough
 #print axioms Vet.build_complete
+#print axioms Vet.C02_exit_status
+#print axioms Vet.C02_report_lines
+#print axioms Vet.C02_report_complete
+#print axioms Vet.C02_human_same_lines
